@@ -26,6 +26,12 @@ fn dispatch(op: &str, a: &[&str]) -> String {
         "plan" => plan::plan(a),
         "encode" => plan::encode(a),
         "encode_str" => plan::encode_str(a),
+        "rt" => plan::rt(a),
+        "dm_flip_codewords" => plan::dm_flip_codewords(a),
+        "str_rt" => plan::str_rt(a),
+        "plan_enc" => plan::plan_enc(a),
+        "dm_decode" => plan::dm_decode(a),
+        "dm_decode_flips" => plan::dm_decode_flips(a),
         "decode_data" => dec::decode_data(a),
         "decode_str" => dec::decode_str(a),
         "read_eci" => dec::read_eci(a),
